@@ -33,7 +33,7 @@ LEVEL = "fault_enumeration"
 TECHNIQUE = "bounded exhaustive enumeration of server ACK / answer / close fault plans + Hypothesis-sampled longer schedules; real UDP/TCP device-management connection on a virtual-time loop vs scriptable simulated server; wire-log oracle"
 RULE = (
     "case = (transport, indication callback registered or not, 1..3 read/write callers on distinct properties, concurrent or sequential, per-transmission ACK plan, per-accepted-request answer plan, "
-    "optional close {server DisconnectRequest, transport loss, client disconnect()} at an offset after the n-th request was received, optional reconnect + one more request); "
+    "optionally a queued caller given up (cancelled) while another request is outstanding, optional close {server DisconnectRequest, transport loss, client disconnect()} at an offset after the n-th request was received, optional reconnect + one more request); "
     "enumerated: 1 request x all ACK plans up to length 2 (4 over a reduced alphabet) x all answers x read/write; 1 request x ACK x answer x close kind x 7 offsets; "
     "2 requests x ACK plans up to length 1 x all answer pairs (length 2: reduced answer alphabet at the quick tier) x {seq, conc}; 2 requests x close on either; TCP analogues with 1..3 requests; "
     "sampled: plans up to 8 ACK / 4 answer symbols with random offsets; non-trivial = plan with at least one fault symbol or a close; distinct by case"
@@ -77,7 +77,7 @@ def label(case) -> str:
     a = "".join(SYM[_name(o)] for o in case.get("ack_plan", []))
     b = "".join(ASYM[_name(o)] for o in case.get("ans_plan", []))
     c = case.get("close")
-    return f"{case['transport']}{'-nocb' if case.get('no_cb') else ''}/{case.get('mode', 'seq')}/{len(case['reqs'])} ack[{a}] ans[{b}]" + (f" close[{c['kind']}@{c['req']}+{c['delay']}]" if c else "")
+    return f"{case['transport']}{'-nocb' if case.get('no_cb') else ''}/{case.get('mode', 'seq')}/{len(case['reqs'])} ack[{a}] ans[{b}]" + (f" close[{c['kind']}@{c['req']}+{c['delay']}]" if c else "") + "".join(f" giveup[{g['call']}+{g['delay']}]" for g in case.get("give_up", []))
 
 
 # ---------------------------------------------------------------------------
@@ -302,9 +302,12 @@ def execute(case: dict):
             except CommunicationError as e:
                 rec["res"] = ("comm", repr(e)[:160])
             except asyncio.CancelledError:
-                rec["res"] = ("cancelled",)
-                if asyncio.current_task().cancelling():  # the harness is tearing down
-                    raise
+                if rec.get("given_up") is not None:
+                    rec["res"] = ("given-up",)  # the caller cancelled this call while it queued for the connection
+                else:
+                    rec["res"] = ("cancelled",)
+                    if asyncio.current_task().cancelling():  # the harness is tearing down
+                        raise
             except Exception as e:  # noqa: BLE001
                 rec["res"] = ("exc", exc_site(e), repr(e)[:200])
             rec["t1"] = round(loop.time(), 6)
@@ -313,6 +316,20 @@ def execute(case: dict):
         n = len(case["reqs"])
         if case.get("mode") == "conc":
             tasks = [asyncio.ensure_future(call(i)) for i in range(n)]
+
+            def give_up(j: int) -> None:
+                # the caller gives a queued call up (task.cancel(), as asyncio.wait_for does on its timeout) -
+                # only while it still waits for its turn: nothing of it is on the wire yet
+                if j >= n or j not in calls or tasks[j].done():
+                    return
+                if any(e["dir"] == "c2s" and e.get("req") == j for e in gw.log):
+                    return
+                calls[j]["given_up"] = round(loop.time(), 6)
+                gw.log.append({"t": round(loop.time(), 6), "tick": loop.tick, "dir": "c2s", "kind": "call_given_up", "req": j, "epoch": gw.epoch})
+                tasks[j].cancel()
+
+            for g in case.get("give_up", []):
+                loop.call_later(g["delay"], give_up, g["call"])
             _, pending = await asyncio.wait(tasks, timeout=80.0 * n + 100)
         else:
             pending = set()
@@ -423,6 +440,32 @@ def judge(ctx, case, gw, calls, inds, out, raws, escaped) -> None:
                     inp,
                     f"write call {i} for {want_prop} returned normally at {c['t1']}; frames delivered since its transmission: {[(f['t'], hex(f['mc']), f['prop'], f['error']) for f in window]}",
                 )
+
+    # (A2) the outstanding request gets its own answer: a matching, error-free confirmation that was delivered
+    # while the call was outstanding (after its request went out, strictly before the call ended, connection not closing)
+    closing = [(e["t"], e["tick"], e["epoch"]) for e in log if e["kind"] in ("transport_lost", "client_disconnect_called", "DisconnectRequest")]
+    for i, c in calls.items():
+        if c["res"] is None or c["res"][0] != "comm" or i not in first_tx:
+            continue
+        raw = raws[i]
+        want_mc = 0xFB if raw[0] == 0xFC else 0xF5
+        want_prop = [int.from_bytes(raw[1:3], "big"), raw[3], raw[4]]
+        ft = first_tx[i]
+        own = [
+            f
+            for f in frames
+            if f.get("for_req") == i and f["mc"] == want_mc and f["prop"] == want_prop and not f["error"] and f["epoch"] == ft["epoch"]
+            and (ft["t"], ft["tick"]) < (f["t"], f["tick"]) and f["t"] < c["t1"] - EPS
+            and not any(ep == f["epoch"] and (t, k) <= (f["t"], f["tick"]) for t, k, ep in closing)
+        ]
+        if own:
+            gu = [e["t"] for e in log if e["kind"] == "call_given_up"]
+            ctx.fail(
+                "C32:own-answer-not-returned",
+                inp,
+                f"call {i} for {want_prop} transmitted at {ft['t']}; its confirmation (mc {want_mc:#04x}, tag {own[0]['tag'].hex()}) was delivered at {own[0]['t']}, "
+                f"but the call failed at {c['t1']}: {c['res'][1]}" + (f"; queued call(s) given up at {gu}" if gu else ""),
+            )
 
     # (B) indications -----------------------------------------------------------------------------
     ind_frames = [f for f in frames if f["mc"] == 0xF7]
@@ -536,7 +579,7 @@ def judge(ctx, case, gw, calls, inds, out, raws, escaped) -> None:
         pending = [
             i
             for i, c in calls.items()
-            if i < len(case["reqs"]) and c["res"] is not None and c.get("t1") is not None and (c["t0"], c["tick0"]) < at_close < (c["t1"], c["tick1"])
+            if i < len(case["reqs"]) and c["res"] is not None and c["res"][0] != "given-up" and c.get("t1") is not None and (c["t0"], c["tick0"]) < at_close < (c["t1"], c["tick1"])
         ]
         holder = [i for i in pending if phase_of(i) != "awaiting-lock"]
         for i in pending:
@@ -578,7 +621,7 @@ def check_case(ctx, case: dict) -> None:
 
 
 def nontrivial(case: dict) -> bool:
-    return any(_name(o) != "ok" for o in case.get("ack_plan", [])) or any(_name(o) != "right" for o in case.get("ans_plan", [])) or case.get("close") is not None
+    return any(_name(o) != "ok" for o in case.get("ack_plan", [])) or any(_name(o) != "right" for o in case.get("ans_plan", [])) or case.get("close") is not None or bool(case.get("give_up"))
 
 
 def _j(o):
@@ -662,6 +705,31 @@ def enum_cases(kind: str, arg, small: bool = True) -> list[dict]:
             for a in ANSWERS:
                 for b in ("right", "none"):
                     cases.append({"transport": "udp", "mode": "seq", "reqs": R3, "ack_plan": [_j(o) for o in plan], "ans_plan": [_j(a), b]})
+    elif kind == "giveup":  # a queued call is given up by its caller while another request is outstanding
+        GD = [0.0, 0.003, 0.0075, 0.012, 5.0]
+        closes = [None] + [{"kind": ck, "req": 0, "delay": d} for ck in ("sdisc", "cdisc") for d in (0.0075, 0.013, 5.5)]
+        if arg == "tcp":
+            closes += [{"kind": "lose", "req": 0, "delay": d} for d in (0.0075, 0.013, 5.5)]
+            for a in ANSWERS:
+                for gd in GD:
+                    for cl in closes:
+                        if cl is not None and a not in ANSWERS_SMALL:
+                            continue
+                        case = {"transport": "tcp", "mode": "conc", "reqs": R2b, "ans_plan": [_j(a)], "give_up": [{"call": 1, "delay": gd}]}
+                        if cl:
+                            case["close"] = cl
+                        cases.append(case)
+                    cases.append({"transport": "tcp", "mode": "conc", "reqs": R3, "ans_plan": [_j(a)], "give_up": [{"call": 1, "delay": gd}]})
+                    cases.append({"transport": "tcp", "mode": "conc", "reqs": R3, "ans_plan": [_j(a)], "give_up": [{"call": 2, "delay": gd}, {"call": 1, "delay": gd + 0.001}]})
+        else:
+            for a in ANSWERS_SMALL + ["twice", "ind"]:
+                for gd in GD:
+                    for cl in closes:
+                        case = {"transport": "udp", "mode": "conc", "reqs": R2b, "ack_plan": [_j(arg)], "ans_plan": [_j(a)], "give_up": [{"call": 1, "delay": gd}]}
+                        if cl:
+                            case["close"] = cl
+                        cases.append(case)
+                    cases.append({"transport": "udp", "mode": "conc", "reqs": R3, "ack_plan": [_j(arg)], "ans_plan": [_j(a)], "give_up": [{"call": 2, "delay": gd}]})
     elif kind == "udp3":  # thorough: 3 concurrent callers, ack plans of length 3 starting with arg, reduced answers
         for rest in itertools.product(ACKS, repeat=2):
             for ans in itertools.product(ANSWERS_SMALL, repeat=3):
@@ -710,6 +778,8 @@ def cases(draw):
     }
     if draw(st.integers(0, 2)) == 0:
         case["no_cb"] = True
+    if n > 1 and case["mode"] == "conc" and draw(st.integers(0, 2)) == 0:
+        case["give_up"] = [{"call": draw(st.integers(1, n - 1)), "delay": draw(st.sampled_from([0.0, 0.003, 0.0075, 0.012, 5.0, 9.0, 10.004, 15.0]))}]
     if draw(st.integers(0, 2)) == 0:
         kinds = ["sdisc", "cdisc"] + (["lose"] if transport == "tcp" else [])
         case["close"] = {
@@ -725,7 +795,7 @@ def _hyp_oracle(ctx, case) -> None:
     ctx.case(
         repr(sorted(case.items())),
         nontrivial=nontrivial(case),
-        cls=[case["transport"], case["mode"], "callers=%d" % len(case["reqs"]), "close" if case.get("close") else "no-close", "no-indication-callback" if case.get("no_cb") else "indication-callback", "reconnect" if case.get("reconnect") else "single-connection"],
+        cls=[case["transport"], case["mode"], "callers=%d" % len(case["reqs"]), "close" if case.get("close") else "no-close", "queued-call-given-up" if case.get("give_up") else "all-calls-awaited", "no-indication-callback" if case.get("no_cb") else "indication-callback", "reconnect" if case.get("reconnect") else "single-connection"],
         sample=label(_norm(case)) if len(case["ack_plan"]) > 3 else None,
     )
 
@@ -813,6 +883,7 @@ def run(ctx) -> None:
     jobs += [("udp2", _j(a)) for a in ACKS] + [("udp2", None)]
     jobs += [("udp2ack2", _j(a)) for a in ACKS]
     jobs += [("udp3seq", _j(a)) for a in ACKS]
+    jobs += [("giveup", _j(a)) for a in ACKS] + [("giveup", "tcp")]
     jobs += [("udp1", _j(a)) for a in ACKS]
     jobs += [("udp1long", a) for a in ACKS_SMALL]
     jobs += [("udp1close", _j(a)) for a in ACKS]
